@@ -3,14 +3,16 @@ From BG Require Import Base.
 Local Open Scope Z_scope.
 
 (* which revision of the code is modelled: the pinned commit (all false) or the repaired one (all true) *)
-Record variant := { v_force_checks : bool; v_clear_labels : bool; v_rmv_labels : bool }.
-Definition pinned := {| v_force_checks := false; v_clear_labels := false; v_rmv_labels := false |}.
-Definition repaired := {| v_force_checks := true; v_clear_labels := true; v_rmv_labels := true |}.
+Record variant := { v_force_checks : bool; v_clear_labels : bool; v_rmv_labels : bool; v_edges0 : bool }.
+Definition pinned := {| v_force_checks := false; v_clear_labels := false; v_rmv_labels := false; v_edges0 := false |}.
+Definition repaired := {| v_force_checks := true; v_clear_labels := true; v_rmv_labels := true; v_edges0 := true |}.
 
 Section Directed.
 Context {L : Type}.
 Variable leqb : L -> L -> bool.
 Variable ldef : L.               (* EdgeLabel() *)
+Variable lcode : L -> Z.         (* integer code of a label, for observations only *)
+Variable lalpha : list L.        (* labels asked about in hasEdge(i,j,l) observations *)
 Variable has_store : bool.       (* false exactly for NoLabel: _setLabel/_getLabel never touch edgeLabels *)
 Variable V : variant.
 
@@ -88,16 +90,112 @@ Definition resize (g : dgraph) (n : nat) : dgraph * res :=
   else ({| adj := firstn n (adj g) ++ repeat [] (n - length (adj g)); size := n; enum := enum g; labels := labels g |}, Done).
 Definition init (n : nat) : dgraph := {| adj := repeat [] n; size := n; enum := 0; labels := [] |}.
 
+
+(* removeDuplicateEdges: per list keep the first occurrence of every neighbour; labels untouched *)
+Fixpoint dedup (seen : list nat) (l : list nat) : list nat :=
+  match l with [] => [] | x :: t => if mem x seen then dedup seen t else x :: dedup (x :: seen) t end.
+Definition remove_duplicates (g : dgraph) : dgraph * res :=
+  if Nat.leb (size g) (length (adj g)) then
+    let adj' := map (dedup []) (adj g) in
+    ({| adj := adj'; size := size g;
+        enum := enum g - fold_right (fun l acc => Z.of_nat (length l) - Z.of_nat (length (dedup [] l)) + acc) 0 (adj g);
+        labels := labels g |}, Done)
+  else (g, UBk IndexOOB).
+
+(* ---- edges(): the (vertex, list-iterator) cursor of Edges::constEdgeIterator ---- *)
+Record cursor := { cv : nat; cpos : nat }.
+Definition cursor_eqb (a b : cursor) : bool := Nat.eqb (cv a) (cv b) && Nat.eqb (cpos a) (cpos b).
+Definition end_vertex (g : dgraph) : nat := (size g - 1)%nat.                  (* getEndVertex: 0 when size = 0 *)
+(* while (neighbour == getOutNeighbours(vertex).end() && vertex != endVertex) neighbour = getOutNeighbours(++vertex).begin(); *)
+Fixpoint skip_empty (fuel : nat) (g : dgraph) (c : cursor) : outcome cursor :=
+  obind (out_neighbours g (cv c)) (fun l =>
+    if Nat.eqb (cpos c) (length l) && negb (Nat.eqb (cv c) (end_vertex g)) then
+      match fuel with O => Undef Fuel | S f => skip_empty f g {| cv := S (cv c); cpos := 0 |} end
+    else Val c).
+Definition edges_begin (g : dgraph) : outcome cursor :=
+  if v_edges0 V && Nat.eqb (size g) 0 then Val {| cv := 0; cpos := 0 |} else skip_empty (size g) g {| cv := 0; cpos := 0 |}.
+Definition edges_end (g : dgraph) : outcome cursor :=
+  if v_edges0 V && Nat.eqb (size g) 0 then Val {| cv := 0; cpos := 0 |}
+  else obind (out_neighbours g (end_vertex g)) (fun l => Val {| cv := end_vertex g; cpos := length l |}).
+Definition cursor_next (g : dgraph) (c : cursor) : outcome cursor := skip_empty (size g) g {| cv := cv c; cpos := S (cpos c) |}.
+Definition cursor_deref (g : dgraph) (c : cursor) : outcome edge :=
+  obind (out_neighbours g (cv c)) (fun l => match nth_error l (cpos c) with Some j => Val (cv c, j) | None => Undef DerefEnd end).
+Fixpoint iter_loop (next : dgraph -> cursor -> outcome cursor) (fuel : nat) (g : dgraph) (c e : cursor) : outcome (list edge) :=
+  if cursor_eqb c e then Val [] else
+  match fuel with O => Undef Fuel | S f =>
+    obind (cursor_deref g c) (fun x => obind (next g c) (fun c' => obind (iter_loop next f g c' e) (fun xs => Val (x :: xs)))) end.
+Definition entries (g : dgraph) : nat := length (concat (adj g)).
+Definition iterate (g : dgraph) : outcome (list edge) :=
+  obind (edges_begin g) (fun b => obind (edges_end g) (fun e => iter_loop cursor_next (S (entries g)) g b e)).
+
+(* ---- observers defined by enumerating edges ---- *)
+Fixpoint bump (v : nat) (l : list nat) : option (list nat) :=          (* ++vec[v], None when v is out of bounds *)
+  match l, v with [], _ => None | x :: t, O => Some (S x :: t) | x :: t, S v' => option_map (cons x) (bump v' t) end.
+Definition in_degrees_of (n : nat) (es : list edge) : outcome (list nat) :=
+  fold_left (fun acc e => obind acc (fun d => match bump (snd e) d with Some d' => Val d' | None => Undef IndexOOB end)) es (Val (repeat 0%nat n)).
+Definition in_degrees (g : dgraph) : outcome (list nat) := obind (iterate g) (in_degrees_of (size g)).
+Definition in_degree (g : dgraph) (v : nat) : outcome nat :=
+  if in_range g v then omap (fun es => length (filter (fun e => Nat.eqb (snd e) v) es)) (iterate g) else Raise OutOfRange.
+Definition out_degrees (g : dgraph) : outcome (list nat) := omapM (out_degree g) (seq 0 (size g)).
+Definition bump2 (i j : nat) (m : list (list nat)) : option (list (list nat)) :=
+  match nth_error m i with None => None | Some row => match bump j row with None => None | Some row' => Some (upd i (fun _ => row') m) end end.
+Definition matrix_of (n : nat) (es : list edge) : outcome (list (list nat)) :=
+  fold_left (fun acc e => obind acc (fun m => match bump2 (fst e) (snd e) m with Some m' => Val m' | None => Undef IndexOOB end)) es (Val (repeat (repeat 0%nat n) n)).
+Definition adjacency_matrix (g : dgraph) : outcome (list (list nat)) := obind (iterate g) (matrix_of (size g)).
+
+(* ---- operator== ---- *)
+Definition lmap_eqb (m1 m2 : @lmap L) : bool :=
+  Nat.eqb (length m1) (length m2) && forallb (fun kv => match lfind (fst kv) m2 with Some v' => leqb (snd kv) v' | None => false end) m1.
+Fixpoint all_edges_in (h : dgraph) (i : nat) (l : list nat) : outcome bool :=
+  match l with [] => Val true | j :: t => obind (has_edge h i j) (fun b => if b then all_edges_in h i t else Val false) end.
+Fixpoint eq_rows (g h : dgraph) (is : list nat) : outcome bool :=
+  match is with [] => Val true | i :: t =>
+    match nth_error (adj g) i, nth_error (adj h) i with
+    | Some lg, Some lh => obind (all_edges_in h i lg) (fun b1 => if b1 then obind (all_edges_in g i lh) (fun b2 => if b2 then eq_rows g h t else Val false) else Val false)
+    | _, _ => Undef IndexOOB end end.
+Definition graph_eqb (g h : dgraph) : outcome bool :=
+  if Nat.eqb (size g) (size h) && Z.eqb (enum g) (enum h) && lmap_eqb (labels g) (labels h) then eq_rows g h (seq 0 (size g)) else Val false.
+
+(* ---- getReversedGraph, edge-list constructor ---- *)
+Definition lift (r : dgraph * res) : outcome dgraph := match r with (g, Done) => Val g | (_, Thrown e) => Raise e | (_, UBk k) => Undef k end.
+Definition reversed (g : dgraph) : outcome dgraph :=
+  obind (iterate g) (fun es =>
+    fold_left (fun acc e => obind acc (fun h => obind (get_label g (fst e) (snd e) true) (fun l => lift (add_edge h (snd e) (fst e) l false)))) es (Val (init (size g)))).
+Definition of_edge_list (es : list (nat * nat * L)) : outcome dgraph :=
+  fold_left (fun acc e => obind acc (fun h => let '(i, j, l) := e in
+     let m := Nat.max i j in
+     obind (if Nat.leb (size h) m then lift (resize h (S m)) else Val h) (fun h1 => lift (add_edge h1 i j l false)))) es (Val (init 0)).
+
+(* ---- everything the public observers report, as integers ---- *)
+Definition zn (n : nat) : Z := Z.of_nat n.
+(* segments: 0 size/edge count, 1 hasEdge, 2 out-degree + neighbour multiset per vertex, 3 labels (non-throwing value, throwing outcome),
+   4 hasEdge(i,j,l), 5 in-degrees / in-degree / out-degrees, 6 adjacency matrix, 7 edges(): length + multiplicity of every pair *)
+Definition observe (g : dgraph) : list (list Z) :=
+  let n := size g in let vs := seq 0 n in
+  [ [zn n; enum g];
+    map (fun e => zout zbool (has_edge g (fst e) (snd e))) (pairs n);
+    flat_map (fun i => zout zn (out_degree g i) :: zvec zn n (omap (fun l => map (fun j => count j l) vs) (out_neighbours g i))) vs;
+    flat_map (fun e => [zout lcode (get_label g (fst e) (snd e) false); zout (fun _ => 1) (get_label g (fst e) (snd e) true)]) (pairs n);
+    flat_map (fun e => map (fun l => zout zbool (has_edge_l g (fst e) (snd e) l)) lalpha) (pairs n);
+    zvec zn n (in_degrees g) ++ map (fun i => zout zn (in_degree g i)) vs ++ zvec zn n (out_degrees g);
+    match adjacency_matrix g with Val m => map zn (concat m) | Raise e => repeat (zexn e) (n * n) | Undef _ => repeat zub (n * n) end;
+    match iterate g with Val es => zn (length es) :: map (fun e => zn (length (filter (edge_eqb e) es))) (pairs n) | Raise e => repeat (zexn e) (S (n * n)) | Undef _ => repeat zub (S (n * n)) end ].
+
 (* ---- histories ---- *)
 Inductive dop :=
 | AddEdge (s d : nat) (l : L) (force : bool) | AddReciprocal (a b : nat) (l : L) (force : bool)
 | RemoveEdge (s d : nat) | RemoveSelfLoops | RemoveVertex (v : nat) | ClearEdges | Resize (n : nat)
-| SetLabel (s d : nat) (l : L) (force : bool).
+| SetLabel (s d : nat) (l : L) (force : bool) | RemoveDuplicates.
 Definition step (g : dgraph) (o : dop) : dgraph * res :=
   match o with
   | AddEdge s d l f => add_edge g s d l f | AddReciprocal a b l f => add_reciprocal g a b l f
   | RemoveEdge s d => remove_edge g s d | RemoveSelfLoops => remove_self_loops g | RemoveVertex v => remove_vertex g v
-  | ClearEdges => clear_edges g | Resize n => resize g n | SetLabel s d l f => set_edge_label g s d l f end.
+  | ClearEdges => clear_edges g | Resize n => resize g n | SetLabel s d l f => set_edge_label g s d l f | RemoveDuplicates => remove_duplicates g end.
 Fixpoint run (g : dgraph) (ops : list dop) : dgraph * res :=
   match ops with [] => (g, Done) | o :: ops' => match step g o with (g1, Done) => run g1 ops' | r => r end end.
+(* the trace the correspondence check compares: after every call, how it ended and what every observer reports.
+   A thrown exception is caught by the caller and the history goes on; undefined behaviour ends it. *)
+Fixpoint trace (g : dgraph) (ops : list dop) : list (list (list Z)) :=
+  match ops with [] => [] | o :: ops' =>
+    let '(g1, r) := step g o in ([zres r] :: observe g1) :: match r with UBk _ => [] | _ => trace g1 ops' end end.
 End Directed.
